@@ -59,9 +59,9 @@ Conf(r, M, obs) == /\ r.ca = "ok" /\ r.pa = "" /\ r.cb = "ok" /\ r.pb = ""
 (* where a transcript leaves the model: <<step, call, component>> of the first deviation *)
 ReqTag(ev, o) == IF Len(ev.reqs) # Len(o.reqs) THEN "request-count"
                  ELSE LET q == CHOOSE q \in 1..Len(ev.reqs) : ev.reqs[q] # o.reqs[q]
-                          D == {f \in {"op", "id", "arg", "ctl", "so"} : ev.reqs[q][f] # o.reqs[q][f]}
+                          D == {f \in {"op", "id", "arg", "ctl", "so", "pg"} : ev.reqs[q][f] # o.reqs[q][f]}
                       IN IF D = {"ctl"} THEN "request:ctl" ELSE IF D = {"so"} THEN "request:so"
-                         ELSE IF D = {"id"} THEN "request:id" ELSE IF D = {"arg"} THEN "request:arg" ELSE "request:several"
+                         ELSE IF D = {"id"} THEN "request:id" ELSE IF D = {"pg"} THEN "request:paging" ELSE IF D = {"arg"} THEN "request:arg" ELSE "request:several"
 EvTag(ev, o, st) == IF ev.reqs # o.reqs THEN ReqTag(ev, o)
                     ELSE IF ~ConfRet(ev.ret, o.ret, ev, st) THEN "return"
                     ELSE IF ~(Len(ev.subs) = Len(o.subs) /\ \A k \in 1..Len(ev.subs) : SameRet(ev.subs[k], o.subs[k])) THEN "stream-calls"
